@@ -1,6 +1,9 @@
 SPECIFICATION ASpecNoHist
 CONSTANTS
-  Owners = {"A","B","C"}
+  A = A
+  B = B
+  C = C
+  Owners = {A,B,C}
   Keys = {1,2,3}
   TTLs = {1,2}
   FloorN = 1
@@ -10,6 +13,7 @@ CONSTANTS
   AllowForeignDelete = FALSE
   AllowForeignShorten = FALSE
   MaxHist = 0
-INVARIANTS TypeOK MutualExclusion OnlyOwnerReleases NeverTainted 
+INVARIANTS TypeOK MutualExclusion OnlyOwnerReleases NeverTainted
 VIEW view
+SYMMETRY Sym
 CHECK_DEADLOCK FALSE
